@@ -65,6 +65,9 @@ def run(out, tier, seed):
         # a named capture in one thread, a tag-only wildcard in the other
         rs, _ = explore(work, "at1", ["A", "T"], {"bound": 1, "stride": 3}, 6)
         runs += rs
+        # one thread supplies a declared-only variable through an overriding probe, the other looks at another variable
+        rs, _ = explore(work, "as1", ["A", "S"], {"bound": 1, "stride": 3}, 6)
+        runs += rs
         # two threads with the same (interned) selector, preempted anywhere in the tooling AND in the call path
         rs, info_c = explore(work, "de1", ["D", "E"], {"bound": 1, "stride": 2}, 8, watch="call")
         runs += rs
@@ -78,6 +81,8 @@ def run(out, tier, seed):
         rs, _ = explore(work, "ab1c", ["A", "B"], {"bound": 1, "stride": 1}, 14, watch="call")
         runs += rs
         rs, _ = explore(work, "at2", ["A", "T"], {"bound": 2, "stride": 1, "stride2": 5}, 14)
+        runs += rs
+        rs, _ = explore(work, "as2", ["A", "S"], {"bound": 2, "stride": 1, "stride2": 5}, 14)
         runs += rs
     for i, rr in enumerate(runs):
         rr["id"] = i
